@@ -122,6 +122,8 @@ pub struct Deliv {
     pub meta: bool,
     pub eof: Option<u64>,
     pub prompt: bool,
+    /// a prompt has been delivered and not answered yet
+    pub prompt_pending: bool,
     pub max_end: u64,
 }
 impl Deliv {
@@ -140,16 +142,24 @@ impl Deliv {
                         self.eof = Some(e.file_size)
                     }
                 }
-                Some(Operations::Prompt(_)) => self.prompt = true,
+                Some(Operations::Prompt(pr)) => {
+                    self.prompt = true;
+                    if pr.nak_or_keep_alive == cfdp_core::pdu::NakOrKeepAlive::Nak {
+                        self.prompt_pending = true;
+                    }
+                }
                 _ => {}
             }
+        }
+        if matches!(rec.ev, Ev::Send(Side::R)) {
+            self.prompt_pending = false; // the receiver answers a prompt at its next send opportunity
         }
     }
     pub fn missing(&self, size: u64) -> u128 {
         bits(0, size) & !self.held
     }
     pub fn key(&self) -> String {
-        format!("{:x}/{}/{:?}/{}/{}", self.held, self.meta, self.eof, self.prompt, self.max_end)
+        format!("{:x}/{}/{:?}/{}{}/{}", self.held, self.meta, self.eof, self.prompt, self.prompt_pending, self.max_end)
     }
 }
 
@@ -558,11 +568,17 @@ pub struct C10 {
     r_last_cond: Option<Condition>,
     /// the peer had already ended when the cancel was issued (nothing to tell it)
     peer_over_at_cancel: bool,
+    /// a PDU was lost: in unacknowledged mode nothing is retransmitted, so the peer was not
+    /// reachable for it
+    lost: bool,
 }
 impl Monitor for C10 {
     fn step(&mut self, rec: &StepRec, ctx: &mut Ctx) {
         if let Ev::Blackout(_) = rec.ev {
             self.blackout = true;
+        }
+        if let Ev::Drop(_) = rec.ev {
+            self.lost = true;
         }
         for (side, i) in &rec.inds {
             match i {
@@ -622,7 +638,10 @@ impl Monitor for C10 {
             if !peer.over() {
                 ctx.flag("peer-not-ended", format!("by={:?}", by), format!("cancel at {:?}: the peer is reachable but never ended ({:?})", by, peer));
             }
-            if !no_return_path && !self.peer_over_at_cancel {
+            // the cancel lost the race if the delivery had already been reported complete
+            // (the cancel lost the race if the receiver reported the delivery complete — before
+            // the request, or before the request could reach it)
+            if !no_return_path && !self.peer_over_at_cancel && !self.r_success && !(self.lost && !scn.ack) {
                 let (mine, theirs) = if by == Side::S { (self.s_last_cond, self.r_last_cond) } else { (self.r_last_cond, self.s_last_cond) };
                 if mine != Some(Condition::CancelReceived) {
                     ctx.flag("cancel-not-reported", format!("by={:?}|canceller|{:?}", by, mine), format!("cancel at {:?}: the cancelling entity's final report carries {:?}, not CancelReceived", by, mine));
@@ -637,7 +656,7 @@ impl Monitor for C10 {
         }
     }
     fn key(&self) -> String {
-        format!("{:?}{}{}{}{:?}{:?}{}", self.cancelled_by, self.blackout, self.r_success_before, self.r_success, self.s_last_cond, self.r_last_cond, self.peer_over_at_cancel)
+        format!("{:?}{}{}{}{:?}{:?}{}{}", self.cancelled_by, self.blackout, self.r_success_before, self.r_success, self.s_last_cond, self.r_last_cond, self.peer_over_at_cancel, self.lost)
     }
     fn outcome(&self) -> String {
         format!("cancel={:?} S={:?} R={:?}", self.cancelled_by, self.s_last_cond, self.r_last_cond)
@@ -660,6 +679,9 @@ impl Monitor for C19 {
         self.c02.step(rec, ctx);
         // the suspension interval is delimited by the user's requests
         let was = (self.susp_s, self.susp_r);
+        if was.0 || was.1 {
+            ctx.arm("step-while-suspended");
+        }
         for (side, p) in &rec.out {
             let s = if *side == Side::S { was.0 } else { was.1 };
             if s {
@@ -678,6 +700,13 @@ impl Monitor for C19 {
                 } else if self.susp_s || self.susp_r {
                     self.peer_fault = true; // the peer gave up while the other side was suspended
                 }
+            }
+        }
+        // a peer timer expiring while the other side is suspended: for the peer the suspension
+        // is a delay longer than its timers, which C02's premise excludes
+        if let Ev::Timeout(side, _) = rec.ev {
+            if (side == Side::R && self.susp_s) || (side == Side::S && self.susp_r) {
+                self.peer_fault = true;
             }
         }
         match rec.ev {
@@ -862,6 +891,7 @@ pub struct C08 {
     /// Immediate(delay>0): gaps waiting for their delay (gap, due ms)
     pending: Vec<((u64, u64), u64)>,
     size_known: Option<u64>,
+    meta_at_fill: bool,
 }
 fn qbits(q: &[(u64, u64)]) -> u128 {
     q.iter().fold(0, |m, r| m | bits(r.0, r.1))
@@ -883,6 +913,13 @@ impl Monitor for C08 {
         }
         let now_ms = rec.obs.now.as_millis() as u64;
         let fss = 4u64;
+        // was the request queue (re)computed in this step? (anything but popping from its front)
+        let refilled_now = {
+            let q = &rec.obs.r_naks;
+            !(q.len() <= self.prev_q.len() && self.prev_q[self.prev_q.len() - q.len()..] == q[..])
+        } || (before.prompt_pending && matches!(rec.ev, Ev::Send(Side::R)));
+        // metadata state when the requests now being sent were computed
+        let meta_when_computed = if refilled_now { before.meta } else { self.meta_at_fill };
         // ---- every NAK PDU is well-formed
         for (side, p) in &rec.out {
             if *side != Side::R {
@@ -893,8 +930,10 @@ impl Monitor for C08 {
                 for r in &n.segment_requests {
                     let marker = r.start_offset == 0 && r.end_offset == 0;
                     if marker {
-                        if before.meta {
-                            ctx.flag("marker-with-metadata-present", "", "a NAK carries the 0-0 metadata marker although metadata has been received");
+                        // a request computed while metadata was missing may go out after it arrived
+                        // (the queue is not re-filtered); computing it with metadata present is wrong
+                        if meta_when_computed {
+                            ctx.flag("marker-with-metadata-present", "", "a NAK carries the 0-0 metadata marker although metadata had been received when the request list was computed");
                         }
                         continue;
                     }
@@ -917,6 +956,9 @@ impl Monitor for C08 {
                     ctx.flag("unsolicited-nak-before-eof", "", format!("deferred procedure: {} was sent before EOF and without a prompt", pdu_brief(p)));
                 }
             }
+        }
+        if refilled_now {
+            self.meta_at_fill = self.d.meta;
         }
         if rec.obs.r_life != Life::Active {
             self.prev_q = rec.obs.r_naks.clone();
@@ -1000,6 +1042,6 @@ impl Monitor for C08 {
     }
     fn key(&self) -> String {
         // pending due times relative to now are implied by the receiver's own delayed timers
-        format!("{} {:?} {:?} {:?}", self.d.key(), self.prev_q, self.pending.iter().map(|p| p.0).collect::<Vec<_>>(), self.size_known)
+        format!("{} {:?} {:?} {:?} {}", self.d.key(), self.prev_q, self.pending.iter().map(|p| p.0).collect::<Vec<_>>(), self.size_known, self.meta_at_fill)
     }
 }
